@@ -12,6 +12,9 @@ class ChainGen:
         self.rng = rng
         self.typed = typed
         self.k = 0
+        # a chain mixes C numbers with C text operands or with container displays only through generic objects: comparing a
+        # C double with a `str`-typed local or a tuple display inside a cascade crashes the compiler (C43-type defect)
+        self.cvars = rng.choice([['ci', 'cd', 'cl'], ['cu', 'cs', 'cb'], ['ci', 'cl'], ['cs']]) if typed else []
 
     def key(self):
         self.k += 1
@@ -23,7 +26,7 @@ class ChainGen:
         if container:
             if r < .4:
                 return 'E.c(%d, %s, [%s])' % (self.key(), rng.choice(['0', '5']), ', '.join(rng.sample(SCRIPT, rng.randint(0, 2)))), 'L'
-            if r < .7:
+            if r < .7 and not self.typed:
                 n = rng.randint(1, 3)
                 br = rng.choice(['()', '[]', '{}'])
                 items = ', '.join(self.operand(allow_typed=False)[0] for _ in range(n))
@@ -32,7 +35,7 @@ class ChainGen:
                 return 'E.v(%d, %s)' % (self.key(), rng.choice(["'abc'", '(1, 2, 3)', '[1, 2.5]', "{'a': 1}", '{1, 2}', "b'ab'"])), 'V'
             return 'E.v(%d, 5)' % self.key(), 'V'        # not a container: TypeError
         if self.typed and allow_typed and r < .35:
-            return rng.choice(['ci', 'cd', 'cu', 'cs', 'cb', 'cl']), 'C'
+            return rng.choice(self.cvars), 'C'
         if r < .6:
             val = rng.choice(['0', '1', '3', '5', "'a'", '2.5'])
             script = ', '.join(rng.choice(SCRIPT) for _ in range(rng.choice([0, 0, 1, 1, 2, 3])))
